@@ -1719,3 +1719,187 @@ Example C17_padded_brace_instances :
   /\ same_proj [64;120;123;49;37;102;108;32;111;122;125] ([64;120;123;49;37;102;108;32] ++ block_comment_text pd_c ++ [32;111;122;125])
   /\ same_proj [64;120;123;49;32;107;103;125] ([64;120;123;49;32] ++ block_comment_text pd_c ++ [32;107;103;125]).
 Proof. split; [|split]; vm_compute; reflexivity. Qed.
+
+(* ---------------------------------------------------------------- text mode at document level *)
+(* With `>> [mode]: text` / `>> [define]: text` every step is read as a paragraph and a component is
+   kept AS WRITTEN: `RecipeCollector::in_text` copies `self.input[span.range()]`, comment tokens
+   removed (event_consumer.rs:570-595, the repair 200c896; [Analysis.in_text], [Analysis.comp_src]).
+   The recipe then depends on the component event's SPAN and on the source text, which the event
+   relations above do not carry; the *_recipe theorems above exclude it by [src_no_text_mode].
+
+   Proofs/EditText*.v close this for the [ksim] family (same kinds token by token: CRLF conversion):
+
+   [EditTextSim.crel s1 s2 D1 D2 e1 e2]  for two component events: their spans cut out of the
+        sources [s1], [s2] the texts of two [ksim]-related runs [c1], [c2] of the documents' token
+        lists [D1], [D2] - the tokens the component parser consumed on either side.
+   [EditTextSim.evrel]  two event streams are [proj]-equal and [crel] event by event.
+
+   The relational reading of the parser is not proved again: the judgement [MRp] is [MR] over states
+   whose token tape is a run of the document's tokens ([tinv]) and whose event queues are [crel];
+   every parser function that pushes no component event is lifted from its [MR] lemma by a unary
+   frame judgement (Proofs/EditTextFrame.v [fr]: tokens only move forward, only non-component events
+   are added), and for the three component parsers [comp_p] combines their [MR] lemma with the frame
+   "the event's span is exactly what was consumed" of Proofs/ParserCoverFrame.v (C05).
+
+   On the analysis side [C17_analysis_text_blind] replaces [C17_analysis_blind]: NO hypothesis about
+   modes; paragraph texts are related by any congruence [teq] the component sources are related by.
+   What `lexer::Cursor` over the copied slice removes is what the slice's tokens are in the document:
+   [C17_strip_token_run] (a token boundary of the input is a boundary of every piece cut at token
+   boundaries; Proofs/EditTextLex.v).
+
+   NORMAL FORM for CRLF: paragraph texts are equal after [EditAnalysis.drop_cr] (every U+000D deleted);
+   everything else - panic site, validity, tables, sections, steps, metadata map - is equal.  A
+   component may wrap over a line end ("@sea\nsalt{}"): the copy keeps "\n" resp. "\r\n", so the
+   normal form is needed ([C17_crlf_text_mode_normal_form_needed]); text events already have LF
+   (soft breaks are events of their own).
+
+   The block comment after a word or number ([jsim]) follows below
+   ([C17_mid_comment_recipe_text_mode(_fm)]).  Still under [src_no_text_mode]: the extra-line edit
+   (its proof goes through an UNSHIFTED intermediate token list that is the token list of no source,
+   so the located-tape invariant has nothing to stand on there) and the trailing and padded edits
+   ([wsimb], [psim]: their event relation [fwr] and the normal form [rnorm] need a text-mode clause
+   in Proofs/EditTrailAnalysis.v as well); [C17_strip_token_run] and the lifting are ready for them. *)
+From CL Require Proofs.EditTextFrame Proofs.EditTextSim Proofs.EditTextAnalysis Proofs.EditTextLex Proofs.EditTextCrlf.
+
+(* the stripped copy of a run of the document's tokens: its non-comment tokens *)
+Theorem C17_strip_token_run :
+  forall s off D c,
+    lex_at U s off = Some D -> EditTextSim.sr D c ->
+    Analysis.strip_comments (concat (map tstr c)) = concat (map tstr (filter EditAnalysis.not_comment c)).
+Proof. exact (EditTextLex.strip_run U gen_special_breaks). Qed.
+Print Assumptions C17_strip_token_run.
+
+(* [ksim]-related token streams: the events are [proj]-equal AND every pair of component events
+   copies [ksim]-related token runs out of the two sources (no front matter; with one:
+   [EditTextSim.events_ksim_fm_p]) *)
+Theorem C17_component_source_ksim :
+  forall cfg s1 s2 ts1 ts2,
+    parse_frontmatter cfg s1 = None -> parse_frontmatter cfg s2 = None ->
+    lex_at U s1 0 = Some ts1 -> lex_at U s2 0 = Some ts2 -> ksim ts1 ts2 ->
+    OR (EditTextSim.evrel s1 s2 ts1 ts2) (events U cfg s1) (events U cfg s2).
+Proof.
+  intros cfg. exact (EditTextSim.events_ksim_p U cfg (ingredient_ksim cfg) (cookware_ksim cfg) (timer_ksim cfg)).
+Qed.
+Print Assumptions C17_component_source_ksim.
+
+(* ANALYSIS BLINDNESS, text mode included: same projection, [teq] component copies => the same
+   outcome with [teq] paragraph texts ([EditTextAnalysis.rrel]: same validity, tables, section names,
+   steps; paragraph texts [teq] one by one).  [teq]: any relation closed under concatenation that
+   keeps emptiness (an empty paragraph is not pushed). *)
+Theorem C17_analysis_text_blind :
+  forall ci_key yaml_ok find_iq unit_class x acfg (teq : str -> str -> Prop) in1 in2 e1 e2,
+    EditAnalysis.crlf_blind yaml_ok ->
+    (forall a, teq a a) -> (forall a b c d, teq a b -> teq c d -> teq (a ++ c) (b ++ d)) ->
+    (forall a b, teq a b -> Events.is_nil a = Events.is_nil b) ->
+    EditTextAnalysis.evs_ok acfg teq in1 in2 e1 e2 ->
+    EditTextAnalysis.out_rel (EditTextAnalysis.rrel teq)
+      (Analysis.analyse ci_key yaml_ok find_iq unit_class in1 x acfg (EventBridge.abstract_events e1))
+      (Analysis.analyse ci_key yaml_ok find_iq unit_class in2 x acfg (EventBridge.abstract_events e2)).
+Proof. intros. apply EditTextAnalysis.analyse_text; assumption. Qed.
+Print Assumptions C17_analysis_text_blind.
+
+(* CooklangParser::parse, CRLF conversion, NO hypothesis about modes: every source without a backslash
+   or a lone carriage return, with or without a front matter, text mode selected anywhere or nowhere.
+   [ac]: the analysis code after the repair 200c896 ([Analysis.cfgF] is the code as it is). *)
+Theorem C17_crlf_recipe_text_mode :
+  forall ac cfg ci_key yaml_ok find_iq unit_class x Y ystr yeqb yaml s,
+    p_strict_escape cfg = false -> Analysis.text_raw ac = false ->
+    no_backslash s = true -> no_lone_cr s = true ->
+    EditAnalysis.crlf_blind yaml_ok -> EditAnalysis.crlf_blind yaml ->
+    EditTextCrlf.same_parse_upto EditAnalysis.drop_cr ac U cfg ci_key yaml_ok find_iq unit_class x Y ystr yeqb yaml s (crlf s).
+Proof.
+  intros. apply EditTextCrlf.crlf_text_mode; try assumption; [exact gen_special_breaks | exact gen_eol_breaks].
+Qed.
+Print Assumptions C17_crlf_recipe_text_mode.
+
+(* the hypotheses are satisfiable on a source that selects text mode, with a component that wraps
+   over a line end: ">> [mode]: text\nAdd @sea\nsalt{} now" *)
+Definition tx_src : str :=
+  [62;62;32;91;109;111;100;101;93;58;32;116;101;120;116;10] ++ [65;100;100;32;64;115;101;97;10]
+  ++ [115;97;108;116;123;125;32;110;111;119].
+
+Example C17_crlf_text_mode_hypotheses_satisfiable :
+  p_strict_escape cfg_all = false /\ Analysis.text_raw Analysis.cfgF = false
+  /\ no_backslash tx_src = true /\ no_lone_cr tx_src = true
+  /\ EditAnalysis.crlf_blind (fun _ : str => true) /\ EditAnalysis.crlf_blind (fun _ : str => @None (list (str * str)))
+  /\ EditAnalysis.src_no_text_mode_b U cfg_all tx_src = false.
+Proof.
+  split; [reflexivity|]. split; [reflexivity|]. split; [vm_compute; reflexivity|]. split; [vm_compute; reflexivity|].
+  split; [intros a b _; reflexivity|]. split; [intros a b _; reflexivity|]. vm_compute. reflexivity.
+Qed.
+
+(* the instance: the two parses are equal after [drop_cr] on paragraph text - and NOT equal before:
+   the paragraph is "Add @sea\nsalt{} now" resp. "Add @sea\r\nsalt{} now" *)
+Example C17_crlf_text_mode_instance :
+  forall ci_key yaml_ok find_iq unit_class,
+    EditTextAnalysis.pmap EditAnalysis.drop_cr (ParseTotal.parse_model U cfg_all ci_key yaml_ok find_iq unit_class x_all tx_src)
+    = EditTextAnalysis.pmap EditAnalysis.drop_cr (ParseTotal.parse_model U cfg_all ci_key yaml_ok find_iq unit_class x_all (crlf tx_src)).
+Proof. intros. vm_compute. reflexivity. Qed.
+
+Example C17_crlf_text_mode_normal_form_needed :
+  forall ci_key yaml_ok find_iq unit_class,
+    ParseTotal.parse_model U cfg_all ci_key yaml_ok find_iq unit_class x_all tx_src
+    <> ParseTotal.parse_model U cfg_all ci_key yaml_ok find_iq unit_class x_all (crlf tx_src).
+Proof. intros. vm_compute. discriminate. Qed.
+
+(* ---------------------------------------------------------------- text mode: the block comment after a word or number *)
+(* The same for [jsim] (Proofs/EditTextIns.v, EditTextInsDoc.v).  The logic [HJ] has arbitrary pre-
+   and postconditions: the ghost (tape invariants, [crelF] event queues) is added to both and the
+   frame judgement lifts every computation that pushes no component event.  [crelF]: the two spans
+   cut out of the two sources token runs whose NON-COMMENT tokens are [ksim]-related - both rests are
+   [anyR]-related before and after the component parser, [anyR] keeps the non-comment tokens one to
+   one, so what the two rests lose is related the same way; the inserted comment is a comment token
+   of the run and `in_text` removes it ([C17_strip_token_run]).
+   Hypotheses of [C17_mid_comment_recipe(_fm)] WITHOUT [src_no_text_mode]; conclusion
+   [same_parse_upto drop_cr] as for CRLF ([jsim] relates tokens by [krel], which does not record the
+   spelling of a newline token; on the edited pair the line ends are the same, and the instance
+   below is an equality). *)
+From CL Require Proofs.EditTextIns Proofs.EditTextInsDoc.
+
+Theorem C17_mid_comment_recipe_text_mode :
+  forall ac cfg ci_key yaml_ok find_iq unit_class x Y ystr yeqb yaml a b c p wd ws tb',
+    p_strict_escape cfg = false -> Analysis.text_raw ac = false -> no_close c = true ->
+    parse_frontmatter cfg (a ++ b) = None -> parse_frontmatter cfg (a ++ block_comment_text c ++ b) = None ->
+    lex_at U a 0 = Some (p ++ [wd]) -> lex_at U b (blen a) = Some (ws :: tb') ->
+    lex_at U (a ++ b) 0 = Some ((p ++ [wd]) ++ ws :: tb') ->
+    is_single_word_tok (kind wd) = true -> kind ws = KWs -> mode_after MOut p = MOut ->
+    EditAnalysis.crlf_blind yaml_ok -> EditAnalysis.crlf_blind yaml ->
+    EditTextCrlf.same_parse_upto EditAnalysis.drop_cr ac U cfg ci_key yaml_ok find_iq unit_class x Y ystr yeqb yaml
+      (a ++ b) (a ++ block_comment_text c ++ b).
+Proof.
+  intros ac cfg. intros. apply (EditTextInsDoc.mid_comment_text_mode U cfg gen_special_breaks gen_eol_breaks ac) with (p := p) (wd := wd) (ws := ws) (tb' := tb'); assumption.
+Qed.
+Print Assumptions C17_mid_comment_recipe_text_mode.
+
+Theorem C17_mid_comment_recipe_text_mode_fm :
+  forall ac cfg ci_key yaml_ok find_iq unit_class x Y ystr yeqb yaml s fm a b c p wd ws tb',
+    p_strict_escape cfg = false -> Analysis.text_raw ac = false -> no_close c = true ->
+    parse_frontmatter cfg s = Some fm -> cook_text fm = a ++ b -> a ++ b <> [] ->
+    lex_at U a (cook_off fm) = Some (p ++ [wd]) -> lex_at U b (cook_off fm + blen a) = Some (ws :: tb') ->
+    lex_at U (a ++ b) (cook_off fm) = Some ((p ++ [wd]) ++ ws :: tb') ->
+    is_single_word_tok (kind wd) = true -> kind ws = KWs -> mode_after MOut p = MOut ->
+    EditAnalysis.crlf_blind yaml_ok -> EditAnalysis.crlf_blind yaml ->
+    EditTextCrlf.same_parse_upto EditAnalysis.drop_cr ac U cfg ci_key yaml_ok find_iq unit_class x Y ystr yeqb yaml
+      s (take_bytes s (cook_off fm) ++ a ++ block_comment_text c ++ b).
+Proof.
+  intros ac cfg. intros. apply (EditTextInsDoc.mid_comment_text_mode_fm U cfg gen_special_breaks gen_eol_breaks ac) with (fm := fm) (p := p) (wd := wd) (ws := ws) (tb' := tb'); assumption.
+Qed.
+Print Assumptions C17_mid_comment_recipe_text_mode_fm.
+
+(* the hypotheses are satisfiable on the text-mode pair of [C17_text_mode_refuted_before_fix]:
+   ">> [mode]: text\n@sea" ++ [-c-] ++ " salt{}" (the comment inside a component of a text-mode
+   block: the defect 200c896 repaired) *)
+Example C17_mid_comment_text_mode_hypotheses_satisfiable :
+  exists p wd ws tb',
+    parse_frontmatter cfg_all (tm_a ++ tm_b) = None
+    /\ parse_frontmatter cfg_all (tm_a ++ block_comment_text [99] ++ tm_b) = None
+    /\ lex_at U tm_a 0 = Some (p ++ [wd]) /\ lex_at U tm_b (blen tm_a) = Some (ws :: tb')
+    /\ lex_at U (tm_a ++ tm_b) 0 = Some ((p ++ [wd]) ++ ws :: tb')
+    /\ is_single_word_tok (kind wd) = true /\ kind ws = KWs /\ mode_after MOut p = MOut
+    /\ EditAnalysis.src_no_text_mode_b U cfg_all (tm_a ++ tm_b) = false.
+Proof.
+  eexists (firstn 10 (match lex_at U tm_a 0 with Some t => t | None => [] end)), _, _, _.
+  split; [vm_compute; reflexivity|]. split; [vm_compute; reflexivity|].
+  split; [vm_compute; reflexivity|]. split; [vm_compute; reflexivity|]. split; [vm_compute; reflexivity|].
+  split; [reflexivity|]. split; [reflexivity|]. split; [vm_compute; reflexivity|]. vm_compute. reflexivity.
+Qed.
